@@ -12,7 +12,8 @@ RULE = ('Positive equity curves of length 2-800 on business-day indexes (as date
         'period and their compounding to the total return, drawdown_t = 1 - x_t / max_{s<=t} x_s on the very series '
         'the function received, max and longest under-water run, CAGR, Sharpe, Sortino (NaN/inf must agree as '
         'NaN/inf); equity x 2^k must leave every number bit-identical, equity x c (c in 1e-3..1e3) within 1e-6. '
-        'Non-trivial: a curve with >= 2 distinct drawdown episodes; distinct = (class, length, first values, start).')
+        'Non-trivial: a curve with >= 2 distinct drawdown episodes; distinct = (class, length, first values, start).'
+        ' Widened: whole-dollar (int64) curves; annualisation factor periods in {252, 52, 12, 1638}; a benchmark curve always supplied and every block of the JSON export checked against its own curve.')
 ASSUMPTIONS = [
     'Sharpe/Sortino are not compared when the deviation is below 1e-6 of the largest return (quotient of rounding noise)',
     'drawdown duration under arbitrary scaling is compared only on curves without near-ties',
